@@ -267,6 +267,71 @@ func checkC38(c *Check) {
 		})
 		c.Ob("calls/result-channel-set-before-registration", fn, a >= 0 && b > a, r.pos(ir.Info.Decl.Pos()), fmt.Sprintf("the result channel is chosen (stmt %d) before setupCall registers the call (stmt %d)", a, b))
 	}
+	// (I) one owner per response buffer: finishCall stores the receive loop's buffer pointer in the call (so that the
+	// caller's PutResponse returns it to the pool) — on every such path it must report the buffer as taken, otherwise the
+	// receive loop keeps reading into a buffer the pool hands out again
+	for _, fn := range []string{"clientConn.finishCall", "udpClientConn.finishCall"} {
+		ir := r.ir(P + fn)
+		if ir == nil {
+			c.Undecided("calls/response-buffer-taken-when-stored", fn, "", "function not found")
+			continue
+		}
+		bufParam := ""
+		for _, p := range ir.Params {
+			if pt, ok := p.Var.Type().(*types.Pointer); ok {
+				if sl, ok := pt.Elem().(*types.Slice); ok {
+					if b, ok := sl.Elem().(*types.Basic); ok && b.Kind() == types.Uint8 {
+						bufParam = p.Name
+					}
+				}
+			}
+		}
+		sig := ir.Info.Obj.Type().(*types.Signature)
+		ownedRes := ""
+		for i := 0; i < sig.Results().Len(); i++ {
+			if isBool(sig.Results().At(i).Type()) {
+				ownedRes = fmt.Sprintf("res%d", i)
+				break
+			}
+		}
+		store := topIndex(ir.Body, func(n Node) bool {
+			as, ok := n.(*AssignN)
+			return ok && len(as.LHS) == 1 && len(as.RHS) == 1 && as.RHS[0] == bufParam && strings.Contains(as.LHS[0], ".")
+		})
+		stores, taken, otherAssign, badReturn := 0, -1, 0, ""
+		walkBlock(ir.Body, nil, func(n Node, _ []Guard) {
+			if as, ok := n.(*AssignN); ok {
+				for i, l := range as.LHS {
+					if i < len(as.RHS) && as.RHS[i] == bufParam && strings.Contains(l, ".") {
+						stores++
+					}
+					if l == ownedRes {
+						otherAssign++
+					}
+				}
+			}
+		})
+		for i, n := range ir.Body {
+			if as, ok := n.(*AssignN); ok && len(as.LHS) == 1 && as.LHS[0] == ownedRes && len(as.RHS) == 1 && as.RHS[0] == "true" && i > store {
+				taken = i
+				otherAssign--
+			}
+		}
+		walkBlock(ir.Body, nil, func(n Node, _ []Guard) {
+			rt, ok := n.(*ReturnN)
+			if !ok || len(rt.Vals) == 0 {
+				return
+			}
+			if rt.Pos < ir.Body[max(store, 0)].P() && rt.Vals[0] != "false" {
+				badReturn = "a return before the buffer is stored reports it as taken"
+			}
+			if store >= 0 && rt.Pos > ir.Body[store].P() && rt.Vals[0] != "true" && rt.Vals[0] != ownedRes {
+				badReturn = "a return after the buffer is stored does not report it as taken"
+			}
+		})
+		ok := bufParam != "" && ownedRes != "" && store >= 0 && stores == 1 && taken > store && otherAssign == 0 && badReturn == ""
+		c.Ob("calls/response-buffer-taken-when-stored", fn, ok, r.pos(ir.Info.Decl.Pos()), fmt.Sprintf("buffer parameter %s stored into the call at top-level statement %d (stores: %d); `%s = true` unconditionally at statement %d; other assignments of the result: %d; %s", bufParam, store, stores, ownedRes, taken, otherAssign, badReturn))
+	}
 }
 
 // deliversOnAllPaths: walking forward through the continuation blocks, every path reaches a delivery
